@@ -323,6 +323,13 @@ class Program:
         return None
 
     def local_imports(self, func):
+        c = self.__dict__.setdefault("_li_cache", {})
+        k = id(func.node)
+        if k not in c:
+            c[k] = self._local_imports(func)
+        return c[k]
+
+    def _local_imports(self, func):
         out = {}
         for n in ast.walk(func.node):
             if isinstance(n, (ast.Import, ast.ImportFrom)):
